@@ -488,3 +488,85 @@ extend('C19', 'Also decided: at most one client is added per call of '
        '_check_idle / _remove_client; no silent Timeout encloses a protocol '
        'exchange; the failure reported for an attempt is built from that '
        'attempt.')
+
+
+# rules added in rounds 3 - 5 (DESIGN.md §4 second table, §10)
+extend('C01', 'Rounds 3-5: store-back discipline on caller-supplied '
+       'mappings; who-may-delete a stored record; no method of Queue writes '
+       'through one of its parameters (the envelope from store.get() is only '
+       'read and copied); RelayPool.attempt returns AsyncResult.get(), '
+       '.value only under established success; the index-space finding is '
+       'keyed by whether the merge that precedes it still fails first.',
+       'who-may-write / value-provenance walks')
+extend('C02', 'Rounds 3-5: the greenlets _pool_imap joins are the ones it '
+       'spawned; a 2xx of the HTTP edge only after handoff; failing results '
+       'may be selected (next / filtered comprehension / class-level tuple '
+       'of failure classes) instead of scanned.')
+extend('C03', 'Rounds 3-5: settled positions are positions in the '
+       'recipient list of the envelope at hand (index / enumerate / position '
+       'table over that very list); no write through a parameter in Queue; '
+       'state get() keeps on the instance is refreshed by every method that '
+       'changes the stored record.', 'derived-state refresh (writer sets)')
+extend('C04', 'Rounds 3-5: the publish is a rename (move / copy onto the '
+       'final path is reported); write_env only from DiskStorage.write: the '
+       'envelope file is written once, updates are one rename.')
+extend('C05', 'Rounds 3-5: segmentation independence of the EOD write; the '
+       'dot-stuffer gets whole parts; end marker values; one scan and EOD '
+       'test between two socket reads; line-end tests of the sender use the '
+       'reader\'s terminator.', 'constant folding of marker expressions, '
+       'typestate over reads and scans')
+extend('C07', 'Rounds 3-5: flags tested by truthiness are set to truthy '
+       'values; the command alphabet (regex character sets after the '
+       'dispatcher\'s transformations) cannot spell the greeting '
+       'pseudo-command or the message-received callback; no except arm '
+       'around the dispatch resumes the main loop; an aborted DATA ends the '
+       'session.', 'regex character-set computation')
+extend('C08', 'Rounds 3-5: who-may-extend the offered extension set; HELO '
+       'empties it; derived state of Extensions refreshed; any socket '
+       'replacement in the buffer owner is a swap; the AUTH gate\'s flags '
+       'are truthy whenever set.')
+extend('C09', 'Rounds 3-5: who-may-read recv_buffer (IO and the DATA '
+       'hand-over only); the recv_buffer property setter assigns what the '
+       'getter reads.')
+extend('C10', 'Rounds 3-5: the reply FIFO is per instance (no class-level '
+       'mutable changed in place through self).', 'class-body / __init__ '
+       'ownership of mutable state')
+extend('C11', 'Rounds 3-5: the RCPT pass runs to completion; stage order of '
+       '_check_replies; RelayPool.attempt hands on the client\'s verdict '
+       '(get(), never an unguarded .value); no text-conversion exception '
+       '(table TEXT_RAISES) leaves MxSmtpRelay.attempt.',
+       'exception-escape over the inlined CFG with a library raise table')
+extend('C12', 'Rounds 3-5: no slack added to `now`; `now` is still current '
+       'when the timed sleep is computed (no untimed wait before it); the '
+       'timetable lock is part of the pool-order graph; cuts by takewhile / '
+       'bisect / helper-returned slices are read.')
+extend('C13', 'Rounds 3-5: no write to a reply before grouping; every '
+       'failure with a sender reaches the bounce spawn (only the null-sender '
+       'branch skips it); nothing handed to a bouncer is written '
+       'afterwards; the assembled report is parsed untransformed.')
+extend('C14', 'Rounds 3-5: a `*timeout*` argument forwarded to a base '
+       'constructor reaches the base parameter of the same name; Timeout '
+       'scopes built by a factory helper are recognised.')
+extend('C15', 'Rounds 3-5: marks applied to a per-call object; remove() '
+       'deletes before it returns; completion-ordered results not paired by '
+       'position; state kept by get() is refreshed; no class-level shared '
+       'mutable; no instance state updated on both sides of a yielding '
+       'call.')
+extend('C16', 'Rounds 3-5: no memoiser on functions returning lists / '
+       'dicts; policy classes share no mutable state; every apply() returns '
+       'None or a re-iterable (the queue walks the result twice); the '
+       'splits may be written with comprehensions (source algebra: one '
+       'copy per recipient / per group and bad recipient).',
+       'return-kind inference, small source algebra for comprehension '
+       'spellings')
+extend('C17', 'Rounds 3-5: reply text cut at LF only; MULTILINE patterns '
+       'cannot consume LF; derived state of Reply (memo filled by a '
+       'property getter) is written by every writer of its sources.')
+extend('C18', 'Rounds 3-5: v2 address provenance; buffers held by an '
+       'object (constructor sizes) are followed.')
+extend('C19', 'Rounds 3-5: T1 on the pool-client chains; no peer talker '
+       'spawned outside the client greenlet; pool / client / deque classes '
+       'share no mutable state.')
+extend('C20', 'Rounds 3-5: every return of encode_7bit lies behind the '
+       'ASCII probe of the body; no strict text codec lets an exception '
+       'out of Envelope.parse.')
